@@ -580,8 +580,9 @@ func runSenderCase(r *mon.Run, c senderCase) {
 		runReturned = false
 	}
 
-	// ---- verdict
-	class := scriptString(c.Script)
+	// ---- verdict (the violation class is the shape of the script: W1..W3 collapse to W)
+	full := scriptString(c.Script)
+	class := strings.NewReplacer("W1", "W", "W2", "W", "W3", "W").Replace(full)
 	w.mu.Lock()
 	streams := append([]*streamState(nil), w.streams...)
 	dials, failedDials, failedConns := w.dials, w.failedDials, w.failedConns
@@ -591,7 +592,7 @@ func runSenderCase(r *mon.Run, c senderCase) {
 	w.logMu.Unlock()
 	detail := func(s *streamState, what string) string {
 		return fmt.Sprintf("%s: stream %d (%s, %d buffers, submitted at dial %d) %s; script %s, cancel %s, streams %+v; state at end %q, Run returned %v; log: %s",
-			c.Target, s.id, s.kind, s.bufs, s.at, what, class, c.Cancel, c.Streams, state, runReturned, strings.Join(log, " | "))
+			c.Target, s.id, s.kind, s.bufs, s.at, what, full, c.Cancel, c.Streams, state, runReturned, strings.Join(log, " | "))
 	}
 	callbacks, submitted, missing := 0, 0, 0
 	for _, s := range streams {
@@ -649,7 +650,7 @@ func runSenderCase(r *mon.Run, c senderCase) {
 	failures := failedDials + failedConns
 	cancelled := c.Cancel.Kind != ""
 	if failures > 0 && (w.okAfter.Load() > 0 || cancelled) {
-		r.Nontrivial(fmt.Sprintf("%s|%s|%s|%d", c.Target, class, c.Cancel, len(c.Streams)))
+		r.Nontrivial(fmt.Sprintf("%s|%s|%s|%d", c.Target, full, c.Cancel, len(c.Streams)))
 	}
 	if failures > 0 && r.WantSample() && (c.ID%7 == 3 || c.Note != "") {
 		r.Sample(map[string]interface{}{"case": c, "state_at_end": state, "dials": dials, "callbacks": callbacks, "log": log})
